@@ -108,10 +108,18 @@ func runC04(c *Ctx) {
 		}
 	}
 	// artifact entry point: ArtifactResponse.InResponseTo against the resolve request id
-	for _, arirt := range []*string{sp("resolve-77"), sp("resolve-78"), sp("resolve-7"), sp("resolve-777"), sp(""), nil, sp(id)} {
-		for _, ids := range [][]string{{id}, {}} {
-			for _, rirt := range []*string{sp(id), sp("id-0000000000"), nil} {
-				mk(cfg, ids, rirt, []*string{sp(id)}, 1, arirt, "artifact")
+	// (the binding to the resolve request holds whatever the escape hatches are set to)
+	for vi, set := range []func(c *Cfg){func(c *Cfg) {}, func(c *Cfg) { c.AllowIdpInit = true }, func(c *Cfg) { c.CustomReqID = Bptr(true) }, func(c *Cfg) { c.CustomReqID = Bptr(false) }} {
+		cfg := defaultCfg()
+		set(&cfg)
+		for _, arirt := range []*string{sp("resolve-77"), sp("resolve-78"), sp("resolve-7"), sp("resolve-777"), sp(""), nil, sp(id)} {
+			for _, ids := range [][]string{{id}, {}} {
+				for ri, rirt := range []*string{sp(id), sp("id-0000000000"), nil} {
+					if vi > 0 && ri == 1 && !c.Thorough() {
+						continue
+					}
+					mk(cfg, ids, rirt, []*string{sp(id)}, 1, arirt, "artifact")
+				}
 			}
 		}
 	}
